@@ -41,7 +41,7 @@ func runC06Consume(c *core.Ctx) {
 		}
 		allowed := map[int64]bool{0: true, 9: true, 10: true, 13: true, 32: true}
 		badConst := false
-		ws := core.EdgesWhere(fn, func(r core.Rel) bool {
+		isWS := func(r core.Rel) bool {
 			if r.Op != token.EQL || !isBuf0(r.X) {
 				return false
 			}
@@ -54,7 +54,12 @@ func runC06Consume(c *core.Ctx) {
 				return false
 			}
 			return true
-		})
+		}
+		ws := core.EdgesWhere(fn, isWS)
+		// ... or a boolean put together from such comparisons (blank := c == ' ' || c == '\t' || ...)
+		for e := range core.AnyOfEdgesWhere(fn, isWS) {
+			ws[e] = true
+		}
 		errIdx := core.ErrResultIndex(fn)
 		for _, rd := range reads {
 			path, reached := core.Reach(fn, rd, func(in ssa.Instruction) bool {
